@@ -41,29 +41,37 @@ type Line struct {
 }
 
 // Policy - layout decisions. The zero value is the canonical layout.
-// Choices is a stream of integers consumed at every variation point (0 = canonical).
+// Every variation point asks pick(n, feature): the answer is 0 (canonical) unless the feature
+// is enabled; then it is a pure function of the drawn Seed and the position of the question,
+// so a rendering is reproducible from (Seed, Features) alone.
 type Policy struct {
-	Choices []int
-	pos     int
-	Tab     bool   // TAB indentation instead of 4 spaces
-	EOL     string // "\n" (default), "\r\n", "\r", "\n\r"
-	Rich    bool   // enable variation points (spaces, twins, synonyms, breaks, commas)
-	Used    map[string]int
+	Seed     uint64
+	Features map[string]bool // enabled layout features; nil with Rich = every feature
+	pos      uint64
+	Tab      bool   // TAB indentation instead of 4 spaces
+	EOL      string // "\n" (default), "\r\n", "\r", "\n\r"
+	Rich     bool   // enable variation points at all
+	Used     map[string]int
 }
+
+// LayoutFeatures - names of all variation points
+var LayoutFeatures = []string{"quote-style", "cmp-word", "assign-word", "member-de", "let-word", "prop-word", "pre-line", "inner-break",
+	"cont-indent", "comment-indent", "optional-comma", "extra-space", "opt-space", "ascii-twin", "backtick-id", "trail-comment", "final-eol"}
 
 func (p *Policy) pick(n int, what string) int {
 	if p == nil || !p.Rich || n <= 1 {
 		return 0
 	}
-	v := 0
-	if p.pos < len(p.Choices) {
-		v = p.Choices[p.pos]
-		if v < 0 {
-			v = -v
-		}
-		v %= n
+	if p.Features != nil && !p.Features[what] {
+		return 0
 	}
+	// splitmix64 over (seed, position)
 	p.pos++
+	z := p.Seed + p.pos*0x9E3779B97F4A7C15
+	z = (z ^ (z >> 30)) * 0xBF58476D1CE4E5B9
+	z = (z ^ (z >> 27)) * 0x94D049BB133111EB
+	z ^= z >> 31
+	v := int(z % uint64(n))
 	if v != 0 {
 		if p.Used == nil {
 			p.Used = map[string]int{}
@@ -108,6 +116,9 @@ var cmpWords = map[string]string{"==": "等于", "/=": "不等于", ">": "大于
 type renderer struct {
 	pol   *Policy
 	lines []Line
+	// mapCtx > 0 while rendering items of a 【】 literal outside any inner { } / （ ）: there
+	// the = sign separates key and value, so an assignment must be braced
+	mapCtx int
 }
 
 func sym(s string) Tok { return Tok{S: s, K: TSym} }
@@ -205,10 +216,16 @@ func (r *renderer) exprLevel(e Expr) int {
 // expr - tokens of e; braces are added when e's level is below `min`
 func (r *renderer) expr(e Expr, min int) []Tok {
 	lv := r.exprLevel(e)
-	if lv < min {
+	if _, isAssign := e.(*Assign); isAssign && r.mapCtx > 0 {
+		lv = -1
+	}
+	if lv < min || lv < 0 {
+		saved := r.mapCtx
+		r.mapCtx = 0
 		out := []Tok{r.punct("{")}
 		out = append(out, r.expr(e, 0)...)
 		out = append(out, r.punct("}"))
+		r.mapCtx = saved
 		return out
 	}
 	switch v := e.(type) {
@@ -234,8 +251,11 @@ func (r *renderer) expr(e Expr, min int) []Tok {
 	case *Var:
 		return []Tok{r.nameTok(v.Name)}
 	case *Grp:
+		saved := r.mapCtx
+		r.mapCtx = 0
 		out := []Tok{r.punct("{")}
 		out = append(out, r.expr(v.E, 0)...)
+		r.mapCtx = saved
 		return append(out, r.punct("}"))
 	case *Bin:
 		lv := opLevel(v.Op)
@@ -278,7 +298,9 @@ func (r *renderer) expr(e Expr, min int) []Tok {
 				c := r.punct("，")
 				out = append(out, c)
 			}
+			r.mapCtx++
 			out = append(out, r.expr(it, lvOr)...)
+			r.mapCtx--
 		}
 		return append(out, r.punct("】"))
 	case *DictLit:
@@ -292,7 +314,9 @@ func (r *renderer) expr(e Expr, min int) []Tok {
 			}
 			out = append(out, Tok{S: quoteStr(v.Keys[i]), K: TStr}, sym("="))
 			// inside 【】 the = sign separates key and value: an assignment value must be braced
+			r.mapCtx++
 			out = append(out, r.expr(v.Vals[i], lvOr)...)
+			r.mapCtx--
 		}
 		return append(out, r.punct("】"))
 	case *Index:
@@ -306,8 +330,11 @@ func (r *renderer) expr(e Expr, min int) []Tok {
 		case *Str:
 			return append(out, r.expr(ix, lvBasic)...)
 		}
+		saved := r.mapCtx
+		r.mapCtx = 0
 		out = append(out, r.punct("{"))
 		out = append(out, r.expr(v.Idx, 0)...)
+		r.mapCtx = saved
 		return append(out, r.punct("}"))
 	case *Member:
 		out := r.expr(v.Root, lvMember)
@@ -355,9 +382,21 @@ func (r *renderer) expr(e Expr, min int) []Tok {
 	panic(fmt.Sprintf("render: unknown expression %T", e))
 }
 
+// braceAssign - inside 【】 the = sign separates key and value, so an assignment there is braced
+func braceAssign(e Expr) Expr {
+	if _, ok := e.(*Assign); ok {
+		return &Grp{E: e}
+	}
+	return e
+}
+
 // argExpr - an argument / list item position: a 以-call must be braced there
 func (r *renderer) argExpr(a Expr) []Tok {
-	return r.expr(a, lvOr)
+	saved := r.mapCtx
+	r.mapCtx = 0
+	out := r.expr(a, lvOr)
+	r.mapCtx = saved
+	return out
 }
 
 func (r *renderer) callToks(c *Call) []Tok {
@@ -498,6 +537,25 @@ func (r *renderer) stmt(indent int, s Stmt) {
 			r.add(indent+1, nil, kw("如何"), r.nameTok(m.Name), r.punct("？"))
 			r.funcBody(indent+2, m.Params, m.Body, m.Catches)
 		}
+		for i := range v.Getters {
+			m := &v.Getters[i]
+			r.add(indent+1, nil, kw("何为"), r.nameTok(m.Name), r.punct("？"))
+			r.funcBody(indent+2, m.Params, m.Body, m.Catches)
+		}
+	case *LetBlock:
+		r.add(indent, s, kw("令"), r.punct("："))
+		for _, pr := range v.Pairs {
+			toks := r.nameList(pr.Names)
+			switch {
+			case pr.Const:
+				toks = append(toks, kw("恒为"))
+			case r.pol.pick(2, "let-word") == 1:
+				toks = append(toks, kw("设为"))
+			default:
+				toks = append(toks, sym("="))
+			}
+			r.add(indent+1, nil, append(toks, r.expr(pr.E, 0)...)...)
+		}
 	case *Comment:
 		r.lines = append(r.lines, Line{Indent: indent, IsRaw: true, Raw: "注：" + v.Text, Stmt: s})
 	default:
@@ -563,24 +621,29 @@ func Layout(lines []Line, pol *Policy) (string, LineMap) {
 	phys := 0
 	for li, ln := range lines {
 		ind := strings.Repeat(unit, ln.Indent)
-		// optional blank lines / comment lines before this line
+		// optional blank lines / comment lines before this line (a comment line may carry any
+		// valid indentation: comments are not statements)
+		cind := ind
+		if k := pol.pick(ln.Indent+3, "comment-indent"); k > 0 {
+			cind = strings.Repeat(unit, k-1)
+		}
 		switch pol.pick(6, "pre-line") {
 		case 1:
 			b.WriteString(eol)
 			phys++
 		case 2:
-			b.WriteString(ind + "注：说明" + eol)
+			b.WriteString(cind + "注：说明" + eol)
 			phys++
 		case 3:
-			b.WriteString(ind + "// note" + eol)
+			b.WriteString(cind + "// note" + eol)
 			phys++
 		case 4:
 			if li > 0 {
-				b.WriteString(ind + "/* 多行" + eol + "   注释 */" + eol)
+				b.WriteString(cind + "/* 多行" + eol + "   注释 */" + eol)
 				phys += 2
 			}
 		case 5:
-			b.WriteString(ind + "注12：「说明" + eol + "文字」" + eol)
+			b.WriteString(cind + "注12：「说明" + eol + "文字」" + eol)
 			phys += 2
 		}
 		if ln.Stmt != nil {
@@ -591,16 +654,27 @@ func Layout(lines []Line, pol *Policy) (string, LineMap) {
 			b.WriteString(ln.Raw)
 		} else {
 			depth := 0
+			// a line that opens a block: the block's indentation is taken relative to the line
+			// on which the header ENDS, so continuation lines of a header keep its indentation
+			// (whether they may be indented differently is not stated anywhere)
+			isHeader := len(ln.Toks) > 0 && (ln.Toks[len(ln.Toks)-1].S == "：" || ln.Toks[len(ln.Toks)-1].S == "？")
 			for i, t := range ln.Toks {
 				if i > 0 {
 					prev := ln.Toks[i-1]
 					broke := false
 					// line break inside brackets / after separators
 					if depth > 0 && (prev.BreakAfter || t.BreakBefore) && pol.pick(4, "inner-break") == 1 {
-						extra := pol.pick(3, "cont-indent")
+						extra := 0
+						if !isHeader {
+							extra = pol.pick(3, "cont-indent")
+						}
 						b.WriteString(eol + strings.Repeat(unit, ln.Indent+extra))
 						phys++
 						broke = true
+					}
+					if !broke && commaAllowed(prev, t) && pol.pick(12, "optional-comma") == 1 {
+						b.WriteString("，")
+						prev = Tok{S: "，", K: TSym}
 					}
 					if !broke {
 						if needSpace(prev, t) {
@@ -642,6 +716,13 @@ func Layout(lines []Line, pol *Policy) (string, LineMap) {
 		phys++
 	}
 	return b.String(), lm
+}
+
+// commaAllowed - an optional pause comma may be written between two tokens of a line (manual
+// ch.3: spaces and commas only mark separation), but never next to another comma
+func commaAllowed(prev, t Tok) bool {
+	isComma := func(x Tok) bool { return x.S == "，" || x.S == "," }
+	return !isComma(prev) && !isComma(t)
 }
 
 func backtickable(s string) bool {
